@@ -10,8 +10,10 @@ import (
 	"encoding/json"
 	"flag"
 	"fmt"
+	"io"
 	"os"
 	"path/filepath"
+	"regexp"
 	"sort"
 	"strings"
 
@@ -38,7 +40,9 @@ var scalarPool = []string{"a", "b", "1", "x y", "true", "null", "~", "a ", " a",
 	"True", "tRuE", "FALSE", "false", "fALSE", "Null", "A"}
 var exprPool = []string{"${{ matrix.v }}", "${{ fromJSON(env.X) }}", "pre-${{ github.sha }}",
 	// closing braces in the text before the placeholder (a Go template, JSON)
-	"c }} ${{ github.ref }}", "{{.x}} ${{ github.sha }}"}
+	"c }} ${{ github.ref }}", "{{.x}} ${{ github.sha }}",
+	// a complete placeholder followed by one that is never closed
+	"${{ matrix.v }} ${{", "a ${{ github.sha }} b ${{ c"}
 var objKeyPool = []string{"name", "m", "ver", "Name", "z"}
 var rowKeyPool = []string{"os", "ver", "arch", "OS", "node"}
 
@@ -776,6 +780,8 @@ func verdictShape(os []obs) [4]int {
 	return c
 }
 
+var lineRefRe = regexp.MustCompile(`line:\d+`)
+
 type failure struct {
 	What     string `json:"what"`
 	Key      string `json:"key"`
@@ -989,6 +995,53 @@ func main() {
 		}
 		if i < 3 {
 			sum.Samples = append(sum.Samples, map[string]interface{}{"workflow": src, "impl": impl})
+		}
+	}
+	// two jobs in one workflow: the verdicts on the second job's matrix are those it gets alone,
+	// whatever the first job's matrix looks like (rows given by expressions, excludes, includes)
+	{
+		lint := func(src string) []string {
+			l, err := actionlint.NewLinter(io.Discard, &actionlint.LinterOptions{Shellcheck: "", Pyflakes: ""})
+			hx.Must(err)
+			errs, err := l.Lint("test.yaml", []byte(src), nil)
+			hx.Must(err)
+			var ms []string
+			for _, e := range errs {
+				if e.Kind == "matrix" {
+					ms = append(ms, lineRefRe.ReplaceAllString(e.Message, "line:N"))
+				}
+			}
+			sort.Strings(ms)
+			return ms
+		}
+		job := func(id, matrix string) string {
+			return "  " + id + ":\n    runs-on: ubuntu-latest\n    strategy:\n      matrix:\n" + matrix + "    steps:\n      - run: echo\n"
+		}
+		firsts := []string{
+			"        k: ${{ fromJSON(env.R) }}\n        other: [a]\n        exclude:\n          - other: a\n",
+			"        k: ${{ fromJSON(env.R) }}\n        v: ${{ fromJSON(env.S) }}\n        exclude:\n          - k: 1\n          - v: 2\n",
+			"        k: [1, 1]\n        include: ${{ fromJSON(env.I) }}\n        exclude:\n          - k: 2\n",
+			"        other: [a]\n        include:\n          - ${{ fromJSON(env.C) }}\n          - k: 5\n        exclude:\n          - k: 6\n",
+		}
+		seconds := []string{
+			"        other: [a]\n        exclude:\n          - k: x\n",
+			"        v: [1, 2, 2]\n        exclude:\n          - v: 3\n          - k: 1\n",
+			"        k: [1, 1]\n        exclude:\n          - k: 2\n",
+		}
+		for fi, f := range firsts {
+			for si, sd := range seconds {
+				alone := lint("on: push\njobs:\n" + job("second", sd))
+				firstAlone := lint("on: push\njobs:\n" + job("first", f))
+				both := lint("on: push\njobs:\n" + job("first", f) + job("second", sd))
+				want := append(append([]string{}, firstAlone...), alone...)
+				sort.Strings(want)
+				sum.Evaluations++
+				sum.Dist["two_job_workflows"]++
+				if strings.Join(both, "\n") != strings.Join(want, "\n") {
+					sum.OracleFails = append(sum.OracleFails, failure{What: fmt.Sprintf("the matrix diagnostics of a workflow with two jobs are not those of the two jobs alone: together %q, alone %q and %q", both, firstAlone, alone),
+						Key: fmt.Sprintf("two-jobs:%d:%d", fi, si), Workflow: "on: push\njobs:\n" + job("first", f) + job("second", sd)})
+				}
+			}
 		}
 	}
 	sum.Nontrivial = len(nontrivial)
